@@ -45,19 +45,25 @@ def norm_out(o):
     return o
 
 
+from impl import oauth2_server as S  # noqa: E402
+
+
 class Runner:
     """Runs a prefix of concrete requests fault-free on a fresh world, then the probe."""
 
     def __init__(self, ctx):
         self.ctx = ctx
 
-    def run(self, steps):
+    def run(self, steps, fclass=None):
         """steps: list of (req, fault or None).  Returns list of (outcome, trace, snapshot) and the model requests."""
         w = F.World(self.ctx.model)
         try:
             res, mreqs = [], []
-            for req, fault in steps:
+            for i, (req, fault) in enumerate(steps):
                 mreqs.append({"req": to_model(w, req), "fault": fault})
+                if fault is not None:
+                    # the class of the injected failure: given, or a function of the steps (so that a replay repeats it)
+                    w.store.fault_class = S.FAULT_CLASSES[(fclass if fclass is not None else fault + i + len(steps) + len(json.dumps(req, sort_keys=True, default=str))) % len(S.FAULT_CLASSES)]
                 out, tr = w.request(req, None if fault is None else fault + 1)
                 res.append([norm_out(out), tr, w.snapshot()])
             return res, mreqs
@@ -113,17 +119,17 @@ def stored(snap, cred):
     return True
 
 
-def check_probe(ctx, prefix, req, fault, label, retry_req=None, second_fault=None):
+def check_probe(ctx, prefix, req, fault, label, retry_req=None, second_fault=None, fclass=None):
     """prefix: fault-free requests; then `req` with `fault` (maybe a second faulted attempt), then the retry."""
     steps = [(r, None) for r in prefix] + [(req, fault)]
     if second_fault is not None:
         steps.append((req, second_fault))
     steps.append((retry_req or req, None))
-    res, mreqs = Runner(ctx).run(steps)
+    res, mreqs = Runner(ctx).run(steps, fclass)
     mod = ctx.model.call("faultflow_run", {"ops": mreqs})
     impl = [[o, tr, impl_snapshot(s)] for o, tr, s in res]
     modl = [[norm_out(o), tr, model_snapshot(s)] for o, tr, s in mod]
-    case = {"prefix": prefix, "req": req, "fault": fault, "second_fault": second_fault, "retry": retry_req}
+    case = {"prefix": prefix, "req": req, "fault": fault, "second_fault": second_fault, "retry": retry_req, "fault_class": fclass}
     ctx.case(case, json.dumps(case, sort_keys=True), "probe:%s:%s" % (req["kind"], label))
     ctx.compare("faultflow", case, impl, modl)
     # ---- the property on the implementation's observations
@@ -294,8 +300,9 @@ def run(ctx):
         for j, req in enumerate(reqs):
             ncalls = len(res[j][1])
             ok = res[j][0][0] == "ok"
-            for k in range(ncalls + 1):
-                out = check_probe(ctx, reqs[:j], req, k, "k%d" % k)
+            nfc = len(S.FAULT_CLASSES)
+            for k, fc in [(k, fc) for k in range(ncalls + 1) for fc in (range(nfc) if ctx.tier != "quick" else (0, 1 + (k + j) % (nfc - 1), 1 + (k + j + 5) % (nfc - 1)))]:
+                out = check_probe(ctx, reqs[:j], req, k, "k%d" % k, fclass=fc)
                 retry = out[-1][0]
                 if ok and k < ncalls and retry[0] != "ok" and not req["kind"].startswith("o1_"):
                     ctx.violation("C19:lost-grant:%s" % req["kind"], "after the fault cleared, repeating a request that would have succeeded was refused",
@@ -303,7 +310,7 @@ def run(ctx):
                 if req["kind"].startswith("o1_") and req["kind"] != "o1_authorize":
                     fresh = dict(req)
                     fresh["nonce_raw"] = req["nonce_raw"] + "r"
-                    out2 = check_probe(ctx, reqs[:j], req, k, "k%d:resigned" % k, retry_req=fresh)
+                    out2 = check_probe(ctx, reqs[:j], req, k, "k%d:resigned" % k, retry_req=fresh, fclass=fc)
                     if ok and k < ncalls and out2[-1][0][0] != "ok":
                         ctx.violation("C19:lost-grant:%s" % req["kind"], "after the fault cleared, the re-signed request was refused although the grant had not been used",
                                       {"prefix": reqs[:j], "req": req, "fault": k, "retry": fresh})
@@ -316,4 +323,4 @@ def run(ctx):
 
 
 def run_case(ctx, case):
-    check_probe(ctx, case["prefix"], case["req"], case["fault"], "replayed", retry_req=case.get("retry"), second_fault=case.get("second_fault"))
+    check_probe(ctx, case["prefix"], case["req"], case["fault"], "replayed", retry_req=case.get("retry"), second_fault=case.get("second_fault"), fclass=case.get("fault_class"))
